@@ -109,6 +109,12 @@ func decomposeInput(
 }
 
 func requiredGas(input []byte, abi *gethabi.ABI) uint64 {
+	// Calldata shorter than a method ID cannot name a method. Return the default
+	// cost and let "decomposeInput" reject the call in "Run" instead of slicing
+	// out of range here.
+	if len(input) < 4 {
+		return gethparams.TxGas
+	}
 	method, err := methodById(abi, input[:4])
 	if err != nil {
 		// It's appropriate to return a reasonable default here
